@@ -225,6 +225,12 @@ pub trait Family: Sync + Send + 'static {
     fn case_budget_s(&self) -> u64 {
         120
     }
+    /// Some(oracle id): a case that exceeds its real-time budget is a candidate violation of this
+    /// oracle (a task that spins stops the virtual clock). The saved case is re-run in a child
+    /// process; only if it gets stuck again is it reported as a violation, otherwise inconclusive.
+    fn stuck_oracle(&self) -> Option<&'static str> {
+        None
+    }
 }
 
 pub fn truncate_json(v: serde_json::Value, max: usize) -> serde_json::Value {
@@ -370,6 +376,7 @@ impl<F: Family> DynFamily for F {
         });
         let done = Arc::new(AtomicBool::new(false));
         let budget = self.case_budget_s();
+        let stuck_oracle = self.stuck_oracle();
 
         // Watchdog: a case that runs longer than its real-time budget makes the run inconclusive.
         let wd = {
@@ -389,6 +396,37 @@ impl<F: Family> DynFamily for F {
                                 let _ = std::fs::create_dir_all(&dir);
                                 let p = dir.join(format!("{property}-{fam}-stuck.json"));
                                 let _ = std::fs::write(&p, case);
+                                if let Some(oracle) = stuck_oracle {
+                                    // confirm in a child process before calling it a violation
+                                    let rf = serde_json::json!({"property": property, "family": fam, "oracle": oracle, "sig": format!("{oracle}:stuck"), "detail": format!("the case did not finish within {budget}s of real time (virtual clock stopped: a task spins or blocks the thread)"), "seed": 0, "case": serde_json::from_str::<serde_json::Value>(case).unwrap_or(serde_json::Value::Null)});
+                                    let rdir = verif_dir.join("replays");
+                                    let _ = std::fs::create_dir_all(&rdir);
+                                    let rp = rdir.join(format!("{property}-{fam}-stuck-{:016x}.json", hash_str(case)));
+                                    let _ = std::fs::write(&rp, serde_json::to_string_pretty(&rf).unwrap());
+                                    let again = std::env::current_exe().ok().and_then(|exe| std::process::Command::new(exe).arg("replay").arg(&property).arg(&rp).stdout(std::process::Stdio::null()).stderr(std::process::Stdio::null()).spawn().ok());
+                                    let mut stuck_again = false;
+                                    if let Some(mut child) = again {
+                                        let t0 = Instant::now();
+                                        loop {
+                                            match child.try_wait() {
+                                                Ok(Some(_)) => break,
+                                                Ok(None) if t0.elapsed().as_secs() > budget => {
+                                                    let _ = child.kill();
+                                                    stuck_again = true;
+                                                    break;
+                                                }
+                                                Ok(None) => std::thread::sleep(std::time::Duration::from_millis(100)),
+                                                Err(_) => break,
+                                            }
+                                        }
+                                    }
+                                    if stuck_again {
+                                        println!("VIOLATION property={property} replay={}", rp.display());
+                                        println!("  oracle={oracle} sig={oracle}:stuck");
+                                        println!("  the case did not finish within {budget}s of real time, twice (a task spins or blocks its thread)");
+                                        std::process::exit(1);
+                                    }
+                                }
                                 println!(
                                     "INCONCLUSIVE property={property} family={fam}: a case exceeded its real-time budget of {budget}s (harness watchdog); case saved to {}",
                                     p.display()
